@@ -205,9 +205,16 @@ func visitInstr(fr *frame, instr ssa.Instruction) continuation {
 	case *ssa.UnOp:
 		x := fr.get(instr.X)
 		if instr.Op == token.ARROW {
-			if ch, ok := x.(*mchan); ok && ch != nil {
-				fr.i.block("channel receive at "+fr.i.prog.Fset.Position(instr.Pos()).String(), func() bool { return len(ch.buf) > 0 || ch.closed })
+			ch, _ := x.(*mchan)
+			v, ok := fr.i.chanRecv(fr.i.prog.Fset.Position(instr.Pos()).String(), ch)
+			if !ok {
+				v = zero(instr.X.Type().Underlying().(*types.Chan).Elem())
 			}
+			if instr.CommaOk {
+				v = tuple{v, ok}
+			}
+			fr.env[instr] = v
+			break
 		}
 		fr.env[instr] = unop(instr, x)
 
@@ -301,7 +308,8 @@ func visitInstr(fr *frame, instr ssa.Instruction) continuation {
 		panic(targetPanic{fr.get(instr.X)})
 
 	case *ssa.Send:
-		fr.get(instr.Chan).(*mchan).send(fr.get(instr.X))
+		sch, _ := fr.get(instr.Chan).(*mchan)
+		fr.i.chanSend(fr.i.prog.Fset.Position(instr.Pos()).String(), sch, fr.get(instr.X))
 
 	case *ssa.Store:
 		store(typeparams.MustDeref(instr.Addr.Type()), fr.get(instr.Addr).(*value), fr.get(instr.Val))
@@ -492,47 +500,17 @@ func visitInstr(fr *frame, instr ssa.Instruction) continuation {
 		log.Fatal("unreachable") // phis are processed at block entry
 
 	case *ssa.Select:
-		// run-to-completion goroutine model: the first ready case in source
-		// order is taken; a blocking select with no ready case is a deadlock
-		// under this model and ends the path as unsupported.
-		chosen := -1
-		var recv value
-		recvOk := false
-		selReady := func() bool {
-			for _, st := range instr.States {
-				ch, _ := fr.get(st.Chan).(*mchan)
-				if ch == nil {
-					continue
-				}
-				if st.Dir != types.RecvOnly || len(ch.buf) > 0 || ch.closed {
-					return true
-				}
-			}
-			return false
-		}
-		if instr.Blocking {
-			fr.i.block("select at "+fr.i.prog.Fset.Position(instr.Pos()).String(), selReady)
-		}
+		// one selection over the cases, first ready case in source order (chan.go)
+		var cases []*chanCase
 		for k, st := range instr.States {
 			ch, _ := fr.get(st.Chan).(*mchan)
-			if ch == nil {
-				continue // nil channel: never ready
+			c := &chanCase{idx: k, ch: ch, send: st.Dir != types.RecvOnly}
+			if c.send {
+				c.val = fr.get(st.Send)
 			}
-			if st.Dir == types.RecvOnly {
-				if len(ch.buf) > 0 || ch.closed {
-					chosen = k
-					recv, recvOk = ch.recv()
-					break
-				}
-			} else {
-				chosen = k
-				ch.send(fr.get(st.Send))
-				break
-			}
+			cases = append(cases, c)
 		}
-		if chosen < 0 && instr.Blocking {
-			unsupported("select would block forever under the run-to-completion goroutine model at %s", fr.i.prog.Fset.Position(instr.Pos()))
-		}
+		chosen, recv, recvOk := fr.i.selectCases("select at "+fr.i.prog.Fset.Position(instr.Pos()).String(), cases, instr.Blocking)
 		r := tuple{chosen, recvOk}
 		for k, st := range instr.States {
 			if st.Dir == types.RecvOnly {
